@@ -134,6 +134,14 @@ def subject(key):
             _SUBJ[key] = akai_subject(akai_small())
         elif key == "akai_pair":
             _SUBJ[key] = akai_subject(akai_pair())
+        elif key == "akai_big2352":
+            # the same image delivered in 2352-byte raw sectors: a cut leaves whole raw sectors (2048 image bytes each) and a
+            # partial one; a sample is complete when every raw sector holding one of its bytes is
+            from mcv.gen import containers as C
+            img, samples, bounds = akai_subject(akai_big())
+            raw = C.mode1_2352(img)
+            s2 = {k: dict(v, need=-(-v["need"] // 2048) * 2352) for k, v in samples.items()}
+            _SUBJ[key] = (raw, s2, sorted({(b // 2048) * 2352 for b in bounds} | {-(-b // 2048) * 2352 for b in bounds}))
         elif key == "roland":
             _SUBJ[key] = roland_subject()
         else:
@@ -205,7 +213,7 @@ class Check(CheckBase):
     title = "On a truncated image every reported file is a well-formed prefix"
     rule = ("images: AKAI (2 partitions, directory before and -- by explicit layout -- after the data, files of 1, 2 "
             "(fragmented) and 3 sectors, L/R pair, a file filling its last sector), a small 64 KiB AKAI image, Roland (3 "
-            "samples, permuted chain, reverse mode), CDDA (3 tracks, real files). Cut points: every structure boundary named "
+            "samples, permuted chain, reverse mode), CDDA (3 tracks, real files), the big AKAI image delivered in 2352-byte raw sectors (cuts in the raw file: every 1009th byte, the raw sectors holding the second partition header densely). Cut points: every structure boundary named "
             "by the writer's layout map (partition header fields, used SAT words, directory entries, sample header fields, "
             "sector/cluster boundaries) -1/0/+1, plus every 509th byte (quick); thorough: EVERY byte of the small AKAI image "
             "and of the CDDA bin, every 16th byte of the big AKAI image, every 4096th of the Roland image + boundaries. Oracle: "
@@ -217,24 +225,30 @@ class Check(CheckBase):
 
     def shards(self):
         cases = []
-        for key in ("akai_small", "akai_big", "akai_pair", "roland", "cdda"):
+        for key in ("akai_small", "akai_big", "akai_pair", "roland", "cdda", "akai_big2352"):
             img, samples, bounds = subject(key)
             cuts = set()
             for b in bounds:
                 for d in (-1, 0, 1):
                     if 0 <= b + d <= len(img):
                         cuts.add(b + d)
-            stride = {"akai_small": 509, "akai_big": 509, "akai_pair": 509, "roland": 65521, "cdda": 509}[key]
+            stride = {"akai_small": 509, "akai_big": 509, "akai_pair": 509, "roland": 65521, "cdda": 509, "akai_big2352": 1009}[key]
             if not self.quick:
-                stride = {"akai_small": 1, "akai_big": 16, "akai_pair": 16, "roland": 4096, "cdda": 1}[key]
+                stride = {"akai_small": 1, "akai_big": 16, "akai_pair": 16, "roland": 4096, "cdda": 1, "akai_big2352": 64}[key]
             lo = R.DATA_FAT_OFF - 70000 if key == "roland" and self.quick else 0
             cuts.update(range(lo, len(img) + 1, stride))
             if key == "roland":
                 cuts.update(range(R.DATA_FAT_OFF, len(img) + 1, 509 if self.quick else 64))
+            if key in ("akai_big", "akai_big2352"):
+                PB = A.build_akai(A.model_from_spec(akai_big()))[1]["p1.size"][0]      # where the second partition begins
             if key == "akai_big":
                 # the header of the second partition: volume table and the first SAT words, densely
-                base = 14 * S
+                base = PB
                 cuts.update(range(base, base + 2000, 3 if self.quick else 1))
+            if key == "akai_big2352":
+                # the raw sectors that hold the header of the second partition (volume table, first SAT words), densely
+                k0 = PB // 2048
+                cuts.update(range(k0 * 2352, (k0 + 2) * 2352, 5 if self.quick else 1))
             cases += [{"subject": key, "cut": c} for c in sorted(cuts)]
         small = [c for c in cases if c["subject"] != "roland"]
         rol = [c for c in cases if c["subject"] == "roland"]
